@@ -189,6 +189,9 @@ NOT_YET = {
 }
 
 
+RECORDED = {"C01", "C02", "C03", "C04", "C05", "C06", "C08", "C11", "C15", "C16", "C17", "C19"}   # keep in step with check.RECORDED
+
+
 def main():
     props = [json.loads(l) for l in open(os.path.join(VERIF, "properties.jsonl"))]
     checks, na = [], []
@@ -196,6 +199,11 @@ def main():
         pid = p["id"]
         if pid in CHECKS:
             cat, tech, text, ref = CHECKS[pid]
+            if pid in RECORDED:
+                tech += "; executions recorded from the repository's own test-suite (pytest plugin harness/pytrace.py, no source change) validated by the same trace modules"
+                text += (" In addition the calls the repository's own 327 tests make (Ace constructions, shadow_of queries, "
+                         "Port / Wildcard histories, Acl operations) are recorded by a pytest plugin and judged by the same "
+                         "TLC trace modules (DESIGN.md section 5.3b).")
             checks.append(dict(
                 property_id=pid,
                 quick_cmd=f"./check {pid} --tier quick",
